@@ -148,6 +148,15 @@ StartInvocation ==
               visited |-> {}, comp |-> {i \in OpIdx : be[i].st \in TERMINAL}, small |-> small]
   /\ UNCHANGED <<be, armed, execRes, outcome, crashes, apifails, fnCount, obs, bad, known, last, nobs>>
 
+\* the invocation cannot even load its history: fetching a further page of the initial state fails, the wrapper raises (Lambda retries)
+StartInvocationLoadFail ==
+  /\ ist = "Idle" /\ ~ExecTerminal /\ inv < MaxInv /\ WithPaging /\ apifails < MaxApiFails
+  /\ outcome \in {"none", "CRASHED", "RAISED"} \/ (outcome = "PENDING" /\ wake)
+  /\ \E i \in OpIdx : be[i].st # "ABSENT"
+  /\ inv' = inv + 1 /\ outcome' = "RAISED" /\ apifails' = apifails + 1 /\ wake' = FALSE /\ chg' = {}
+  /\ UNCHANGED <<be, armed, execRes, ist, loc, q, pfail, pc, ph, nph, cur, att, err, rcmode, val, crashes, lg>>
+  /\ UNCHANGED monvars
+
 EndWith(o) ==
   /\ ist' = "Idle" /\ outcome' = o
   /\ q' = <<>>                      \* unsent async updates are abandoned when the batcher is stopped
@@ -623,7 +632,7 @@ PipeStep == \/ (\E k \in 1..Len(q) : Flush(k)) \/ (\E c \in {"retriable", "fatal
 Stuck == ist = "Idle" /\ ~ExecTerminal /\ ~ENABLED StartInvocation
 Done == ist = "Idle" /\ (ExecTerminal \/ Stuck \/ inv >= MaxInv)
 
-Next == UserStep \/ EnvStep \/ PipeStep \/ StartInvocation \/ Crash \/ (Done /\ UNCHANGED vars)
+Next == UserStep \/ EnvStep \/ PipeStep \/ StartInvocation \/ StartInvocationLoadFail \/ Crash \/ (Done /\ UNCHANGED vars)
 
 NextP == Next /\ UNCHANGED prog
 Spec == Init /\ [][NextP]_<<vars, prog>>
